@@ -113,7 +113,7 @@ Section Keys.
     destruct ((RANGEPROOF_MIN_VALUE <=? s_value s) && (s_value s <=? I64_MAX)) eqn:R; [|discriminate]. cbn [obind].
     intros [= <-]. exists i, bf. split; [reflexivity|]. split.
     - unfold wts_out, scommit, sgen. rewrite map_map. reflexivity.
-    - apply andb_true_iff in R as [R1 R2]. apply Z.leb_le in R1, R2. unfold RANGEPROOF_MIN_VALUE in R1. lia.
+    - apply andb_true_iff in R as [R1 R2]. apply Z.leb_le in R1, R2. rewrite rp_min_value in R1. lia.
   Qed.
 
   (* ---- one iteration *)
